@@ -17,6 +17,8 @@ func init() {
 			"(c) a Verify error returns (verified-so-far, that error); (d) the non-adjacency rejection is reached exactly under verifyErr==nil ∧ i>0 ∧ elem.Height()≠rolling.Height()+1 and the append is unreachable under it; " +
 			"(e) `verified` starts as a fresh empty slice and is only ever extended by append(verified, elem) after both checks; (f) the only nil-error return is the loop exit returning `verified`.",
 		NotDecided: []string{"that each element 'passed Verify' means what C01 says (rests on C01)"},
+		Technique:  "loop-shape and dominance rules on SSA (index walk, rolling phi, prefix construction, exact adjacency guard, assumption pruning)",
+		Trusted:    "go/types+go/ssa; purity of header observers; C01 for the meaning of Verify",
 		Run:        runC02,
 	})
 }
